@@ -20,8 +20,9 @@ structure SinkI where
   cap : Nat
   chunks : List (List Item)
   buf : List Item
+  fbd : Bool
 
-def SinkI.erase (s : SinkI) : Sink := ⟨s.cap, s.chunks.map unitsOf, unitsOf s.buf⟩
+def SinkI.erase (s : SinkI) : Sink := ⟨s.cap, s.chunks.map unitsOf, unitsOf s.buf, s.fbd⟩
 def SinkI.remaining (s : SinkI) : Nat := s.cap - (unitsOf s.buf).length
 def SinkI.flush (s : SinkI) : SinkI := { s with chunks := s.chunks ++ [s.buf], buf := [] }
 def SinkI.store (s : SinkI) (it : Item) : Option SinkI :=
@@ -32,7 +33,8 @@ def SinkI.step (s : SinkI) (it : Item) : Option SinkI :=
   | .one _ => (if s.remaining = 0 then s.flush else s).store it
   | .atom us => (if s.remaining < us.length then s.flush else s).store it
   | .bulk us =>
-    if us.length > s.cap then some { s.flush with chunks := s.flush.chunks ++ [[it]] }
+    if us.length > s.cap then
+      some { (if s.fbd then s.flush else s) with chunks := (if s.fbd then s.flush else s).chunks ++ [[it]] }
     else (if s.remaining < us.length then s.flush else s).store it
   | .flushIfFull => some (if s.remaining = 0 then { s.flush with buf := [it] } else { s with buf := s.buf ++ [it] })
 
@@ -72,7 +74,7 @@ theorem SinkI.erase_step (s : SinkI) (it : Item) :
     simp only [SinkI.step, Sink.step, SinkI.erase_remaining, hc]
     by_cases hb : us.length > s.cap
     · simp only [hb, ↓reduceIte]
-      simp [SinkI.erase, SinkI.flush, Sink.flush, unitsOf_single, Item.units]
+      cases hf : s.fbd <;> simp [SinkI.erase, SinkI.flush, Sink.flush, unitsOf_single, Item.units, hf]
     · simp only [hb, ↓reduceIte]
       by_cases h : s.remaining < us.length
       · simp only [h, ↓reduceIte]; rw [SinkI.erase_store, SinkI.erase_flush]; rfl
@@ -96,25 +98,25 @@ theorem SinkI.erase_run (items : List Item) (s : SinkI) :
     | none => simp
     | some s1 => simp [ih]
 
-theorem SinkI.step_all (s s' : SinkI) (it : Item) (h : s.step it = some s') :
-    s'.all = s.all ++ [it] ∧ s'.cap = s.cap := by
+theorem SinkI.step_all (s s' : SinkI) (it : Item) (hf : s.fbd = true) (h : s.step it = some s') :
+    s'.all = s.all ++ [it] ∧ s'.cap = s.cap ∧ s'.fbd = true := by
   cases it with
   | one u =>
     simp only [SinkI.step, SinkI.store] at h
-    split at h <;> split at h <;> simp at h <;> subst h <;> simp [SinkI.all, SinkI.flush]
+    split at h <;> split at h <;> simp at h <;> subst h <;> simp [SinkI.all, SinkI.flush, hf]
   | atom us =>
     simp only [SinkI.step, SinkI.store] at h
-    split at h <;> split at h <;> simp at h <;> subst h <;> simp [SinkI.all, SinkI.flush]
+    split at h <;> split at h <;> simp at h <;> subst h <;> simp [SinkI.all, SinkI.flush, hf]
   | bulk us =>
-    simp only [SinkI.step, SinkI.store] at h
+    simp only [SinkI.step, SinkI.store, hf, ↓reduceIte] at h
     split at h
-    · simp at h; subst h; simp [SinkI.all, SinkI.flush]
-    · split at h <;> split at h <;> simp at h <;> subst h <;> simp [SinkI.all, SinkI.flush]
+    · simp at h; subst h; simp [SinkI.all, SinkI.flush, hf]
+    · split at h <;> split at h <;> simp at h <;> subst h <;> simp [SinkI.all, SinkI.flush, hf]
   | flushIfFull =>
     simp only [SinkI.step] at h
-    split at h <;> simp at h <;> subst h <;> simp [SinkI.all, SinkI.flush]
+    split at h <;> simp at h <;> subst h <;> simp [SinkI.all, SinkI.flush, hf]
 
-theorem SinkI.run_all (items : List Item) (s s' : SinkI) (h : SinkI.run items s = some s') :
+theorem SinkI.run_all (items : List Item) (s s' : SinkI) (hf : s.fbd = true) (h : SinkI.run items s = some s') :
     s'.all = s.all ++ items ∧ s'.cap = s.cap := by
   induction items generalizing s with
   | nil => simp [SinkI.run] at h; subst h; simp
@@ -124,8 +126,8 @@ theorem SinkI.run_all (items : List Item) (s s' : SinkI) (h : SinkI.run items s 
     | none => simp [h1] at h
     | some s1 =>
       simp only [h1, Option.bind_some] at h
-      obtain ⟨a1, c1⟩ := SinkI.step_all s s1 it h1
-      obtain ⟨a2, c2⟩ := ih s1 h
+      obtain ⟨a1, c1, f1⟩ := SinkI.step_all s s1 it hf h1
+      obtain ⟨a2, c2⟩ := ih s1 f1 h
       exact ⟨by rw [a2, a1]; simp, by rw [c2, c1]⟩
 
 /-- invariant: the buffer never holds more than `cap` units -/
@@ -161,7 +163,11 @@ theorem SinkI.step_ok (s : SinkI) (it : Item) (hi : s.Inv) (hcap : 0 < s.cap)
   | bulk us =>
     simp only [SinkI.step]
     by_cases hb : us.length > s.cap
-    · rw [if_pos hb]; exact ⟨_, rfl, by simp [SinkI.Inv, SinkI.flush]⟩
+    · rw [if_pos hb]
+      refine ⟨_, rfl, ?_⟩
+      cases hf : s.fbd
+      · simpa [SinkI.Inv, hf] using hi
+      · simp [SinkI.Inv, SinkI.flush, hf]
     · rw [if_neg hb]
       by_cases h : s.remaining < us.length
       · rw [if_pos h]; exact SinkI.store_flush_ok s _ (by simp [Item.units]; omega)
@@ -175,6 +181,23 @@ theorem SinkI.step_ok (s : SinkI) (it : Item) (hi : s.Inv) (hcap : 0 < s.cap)
       unfold SinkI.Inv at *
       simp [unitsOf_append, unitsOf_single, Item.units]; exact hi
 
+theorem SinkI.step_cap (s s' : SinkI) (it : Item) (h : s.step it = some s') : s'.cap = s.cap := by
+  cases it with
+  | one u =>
+    simp only [SinkI.step, SinkI.store] at h
+    split at h <;> split at h <;> simp at h <;> subst h <;> simp [SinkI.flush]
+  | atom us =>
+    simp only [SinkI.step, SinkI.store] at h
+    split at h <;> split at h <;> simp at h <;> subst h <;> simp [SinkI.flush]
+  | bulk us =>
+    simp only [SinkI.step, SinkI.store] at h
+    split at h
+    · simp at h; subst h; cases s.fbd <;> simp [SinkI.flush]
+    · split at h <;> split at h <;> simp at h <;> subst h <;> simp [SinkI.flush]
+  | flushIfFull =>
+    simp only [SinkI.step] at h
+    split at h <;> simp at h <;> subst h <;> simp [SinkI.flush]
+
 theorem SinkI.run_ok (items : List Item) (s : SinkI) (hi : s.Inv) (hcap : 0 < s.cap)
     (hatom : ∀ us, Item.atom us ∈ items → us.length ≤ s.cap) :
     ∃ s', SinkI.run items s = some s' ∧ s'.Inv := by
@@ -182,7 +205,7 @@ theorem SinkI.run_ok (items : List Item) (s : SinkI) (hi : s.Inv) (hcap : 0 < s.
   | nil => exact ⟨s, rfl, hi⟩
   | cons it rest ih =>
     obtain ⟨s1, e1, i1⟩ := SinkI.step_ok s it hi hcap (fun us h => hatom us (by simp [h]))
-    have c1 := (SinkI.step_all s s1 it e1).2
+    have c1 := SinkI.step_cap s s1 it e1
     obtain ⟨s2, e2, i2⟩ := ih s1 i1 (by rw [c1]; exact hcap) (fun us h => by rw [c1]; exact hatom us (by simp [h]))
     exact ⟨s2, by simp [SinkI.run, e1, e2], i2⟩
 
